@@ -81,6 +81,9 @@ def _case(draw, tier):
         if kind == "subdiv":
             mesh = meshgen.subdivide_edges(draw, mesh)
     c = {"mesh": mesh, "access": draw(st.permutations([0, 1, 2, 3, 4, 5])), "source": source}
+    # route: the judged grid is a face subset of the generated one, taken after a drawn set of tables existed on the parent
+    if draw(st.integers(0, 4)) == 0:
+        c["subset"] = {"drop": draw(st.lists(st.integers(0, 10_000), min_size=1, max_size=5)), "parent_tables": sorted(draw(st.sets(sampled_from(["edge_face_connectivity", "node_face_connectivity", "face_face_connectivity", "hole_edge_indices", "face_edge_connectivity", "edge_node_connectivity"]), max_size=4)))}
     # history: operations that only read the incidence tables (differences, gradients, aggregations, the dual, a
     # subset), run before the tables are first read or between two reads; the tables judged are those read last
     c["ops"] = draw(st.lists(sampled_from(OPS), max_size=3))
@@ -166,6 +169,22 @@ def run_case(case, ctx):
     n_node = len(mesh["nodes"])
     g, info = _build(case, ctx)
     site = case["source"]
+    sub = case.get("subset")
+    if sub and len(faces) >= 4:
+        for t in sub["parent_tables"]:
+            getattr(g, t)
+        drop = sorted({k % len(faces) for k in sub["drop"]})
+        keep = [k for k in range(len(faces)) if k not in drop]
+        g = g.isel(n_face=keep)
+        info = None
+        # the subset as the grid itself reports it (that it holds exactly the chosen faces is C02's / C09's subject)
+        sconn = np.asarray(g.face_node_connectivity.values)
+        if sconn.ndim == 1:
+            sconn = sconn[None, :]
+        mesh = {"nodes": [[float(a), float(b)] for a, b in zip(np.asarray(g.node_lon.values, float), np.asarray(g.node_lat.values, float))], "faces": [[int(j) for j in row if j != FILL] for row in sconn]}
+        faces, n_node = mesh["faces"], len(mesh["nodes"])
+        site += ":face-subset" + ("-of-parent-with-tables" if sub["parent_tables"] else "")
+        ctx.label("route:face-subset" + ("-of-parent-with-tables" if sub["parent_tables"] else ""))
     got = {}
     ops = case.get("ops") or []
     if ops and case.get("ops_first"):
